@@ -16,7 +16,7 @@ import threading
 import numpy as np
 
 from . import catalog, env, seams, tables
-from .sched import (BoundaryOnly, Deadlock, Explicit, PCT, RandomWalk,
+from .sched import (BoundaryOnly, Deadlock, Explicit, PCT, RandomWalk, SchedAbort,
                     Scheduler)
 from .tensors import (DT, DTNAME, flat_tensors, make_tensor, raw_bytes, snap,
                       snap_digest, storage_bytes)
@@ -449,7 +449,7 @@ class Client:
         except (Abort, Deadlock):
             raise
         except BaseException as e:  # noqa - injected BaseExceptions included
-            if isinstance(e, SystemExit):
+            if isinstance(e, SchedAbort):
                 raise
             return "raise", e
 
